@@ -276,6 +276,32 @@ def apalache(module, init, inv, length, timeout=300):
     finally:
         shutil.rmtree(d, ignore_errors=True)
 
+def tlaps(module, timeout=600):
+    """Runs the TLA+ proof system on spec/<module>.tla (in a scratch copy: tlapm writes a cache next to the file).
+    Returns ('ok', n_obligations) | ('failed', detail) | ('not_attempted', why)."""
+    d = tempfile.mkdtemp(prefix="verif_tlaps_")
+    try:
+        for f in os.listdir(SPEC):
+            if f.endswith(".tla"):
+                shutil.copy(os.path.join(SPEC, f), d)
+        try:
+            p = subprocess.run(["tlapm", "--threads", "8", module + ".tla"], cwd=d, stdout=subprocess.PIPE, stderr=subprocess.STDOUT,
+                               text=True, timeout=timeout)
+        except subprocess.TimeoutExpired:
+            return "not_attempted", "timeout"
+        except OSError as e:
+            return "not_attempted", repr(e)
+        m = re.search(r"All (\d+) obligations? proved", p.stdout)
+        if m:
+            return "ok", int(m.group(1))
+        m = re.search(r"(\d+)/(\d+) obligations failed", p.stdout)
+        if m:
+            return "failed", m.group(0)
+        return "not_attempted", p.stdout[-300:].replace("\n", " ")
+    finally:
+        shutil.rmtree(d, ignore_errors=True)
+
+
 # --------------------------------------------------------------------------
 # batched trace validation
 # --------------------------------------------------------------------------
